@@ -1,5 +1,10 @@
 import Norad.Props.C06
 import Norad.Props.C11
+import Norad.Props.C07
+import Norad.Props.C13
+import Norad.Props.C15
+import Norad.Props.C18
+import Norad.Props.C20
 /-!
 # C03 — every public entry point is total: errors are returned, never panics
 
@@ -45,3 +50,20 @@ theorem end_path_unreachable_arm (pts : List Pt) (n : Nat) (hf : feed pts true 0
   closed_no_move pts hc ((feed_top pts).1 ⟨n, hf⟩)
 
 end C11
+
+/-!
+## entry points whose totality theorems live with their own property
+
+They are part of C03's obligations (listed in `Audit/C03.lean`, re-checked on every C03 run):
+
+* `C07.fileName_none_iff_100_rejections` — `user_name_to_file_name` panics only after 100 rejections (the
+  documented panic); both `String::truncate` sites sit on character boundaries;
+  `C07.backoff_steps_le_3` — the char-boundary back-off loop terminates within three steps.
+* `C13.validate_never_panics`, `C13.saveInfo_never_panics`, `C13.loadInfo_never_panics` — the byte slicing of
+  the creation date happens only after the all-ASCII check.
+* `Kern.upconvert_no_panic_decimal` — the `unwrap`s of `upconvert_kerning` are safe and the unique-name
+  loop terminates (fuel `groups.len() + 1` suffices).
+* `C18.glue_never_panics` — the `unreachable!` of the plist-in-XML glue is unreachable
+  (`C18.glue_never_panics_counterexample`: an unprintable date panics inside the plist crate; recorded).
+* `C20.toKurbo_succeeds` — `Contour::to_kurbo` does not fail on any contour the parser accepts.
+-/
